@@ -907,7 +907,7 @@ From V Require Proofs.BlocksTotal5Only.
    after the string "..peek_char_n:assert!(" + "*c > 0)" of the list below (it takes the two characters for a comment
    opener), and the build would lose the dependency of this file on the files of the sixth round *)
 From V Require Proofs.BlocksTotal6Row Proofs.BlocksTotal6Pos Proofs.BlocksTotal6Val Proofs.BlocksTotal6ValWalk Proofs.BlocksTotal6.
-From V Require Proofs.BlocksTotal7Add Proofs.BlocksTotal7Fm Proofs.BlocksTotal7Loc Proofs.BlocksTotal7Cur Proofs.BlocksTotal7.
+From V Require Proofs.BlocksTotal7Add Proofs.BlocksTotal7ContWalk Proofs.BlocksTotal7Fm Proofs.BlocksTotal7Loc Proofs.BlocksTotal7Cur Proofs.BlocksTotal7.
 
 Theorem Blocks_total_remaining_sites_list :
   BlocksTotal5Only.rem_sites =
@@ -1287,6 +1287,50 @@ Theorem Blocks_total_remaining_sites_list7 :
     "mod.rs:parse_reference_inline:String::from_utf8(clean_url).unwrap()";
     "mod.rs:parse_reference_inline:String::from_utf8(clean_title).unwrap()";
     "table.rs:try_inserting_table_header_paragraph:String::from_utf8(paragraph_content).unwrap()";
+    "strings.rs:split_off_front_matter:slice_from";
+    "strings.rs:split_off_front_matter:slice_to";
+    "strings.rs:line_at:slice";
+    "mod.rs:finalize_borrowed:assert!(pos < content.len())";
+    "mod.rs:finalize_borrowed:content.as_bytes()[pos]";
+    "table.rs:try_opening_header:content.len() - 2";
+    "table.rs:try_opening_header:content.len() - 2 - header_row.paragraph_offset";
+    "strings.rs:remove_trailing_blank_lines:line.len() - 1";
+    "strings.rs:chop_trailing_hashtags:line.len() - 1" ].
+Proof. split; vm_compute; reflexivity. Qed.
+Print Assumptions Blocks_total_remaining_sites_list7.
+
+(* valid UTF-8 input: Ok, or a Panic at one of the sites of rem_sites7 *)
+Theorem Blocks_total_partial_ok_or_remaining7 : forall o x, utf8_valid x = true ->
+  (exists r, parse_blocks o x = Ok r) \/ (exists s, parse_blocks o x = Panic s /\ In s BlocksTotal7.rem_sites7).
+Proof. exact BlocksTotal7.parse_blocks_ok_or_rem7. Qed.
+Print Assumptions Blocks_total_partial_ok_or_remaining7.
+
+(* EVERY input (valid UTF-8 or not): Ok, or a Panic at one of the sites of rem_sites7_all *)
+Theorem Blocks_total_partial_ok_or_remaining7_every_input : forall o x,
+  (exists r, parse_blocks o x = Ok r) \/ (exists s, parse_blocks o x = Panic s /\ In s BlocksTotal7.rem_sites7_all).
+Proof. exact BlocksTotal7.parse_blocks_ok_or_rem7_all. Qed.
+Print Assumptions Blocks_total_partial_ok_or_remaining7_every_input.
+
+
+
+Theorem Blocks_total_remaining_sites_list7 :
+  BlocksTotal7.rem_sites7 =
+  [ "mod.rs:finalize_borrowed:assert!(ast.open)";
+    "mod.rs:add_line:assert!(ast.open)";
+    "mod.rs:add_text_to_container:self.finalize(self.current).unwrap()";
+    "mod.rs:finalize_borrowed:assert!(pos < content.len())";
+    "mod.rs:finalize_borrowed:content.as_bytes()[pos]";
+    "table.rs:try_opening_header:content.len() - 2";
+    "table.rs:try_opening_header:content.len() - 2 - header_row.paragraph_offset";
+    "strings.rs:remove_trailing_blank_lines:line.len() - 1";
+    "strings.rs:chop_trailing_hashtags:line.len() - 1" ] /\
+  BlocksTotal7.rem_sites7_all =
+  [ "mod.rs:finalize_borrowed:assert!(ast.open)";
+    "mod.rs:add_line:assert!(ast.open)";
+    "mod.rs:add_text_to_container:self.finalize(self.current).unwrap()";
+    "mod.rs:add_line:str::from_utf8(&line[self.offset..]).unwrap()";
+    "mod.rs:handle_alert:String::from_utf8(tmp).unwrap()";
+    "mod.rs:handle_footnote:str::from_utf8(c).unwrap()";
     "strings.rs:split_off_front_matter:slice_from";
     "strings.rs:split_off_front_matter:slice_to";
     "strings.rs:line_at:slice";
